@@ -15,7 +15,7 @@ REPO = os.environ.get("VERIF_REPO", "/repo")
 SUPPLEMENTARY = {"miri", "nohooks", "stdbuild", "constrained", "fvbuild"}
 
 PROPS = {
-    "C01": {"level": "exploration", "stages": ["native", "constrained"]},
+    "C01": {"level": "exploration", "stages": ["native", "constrained", "fvbuild"]},
     "C02": {"level": "exploration", "stages": ["native", "nohooks", "fvbuild"]},
     "C03": {"level": "exploration", "stages": ["native", "fvbuild"]},
     "C04": {"level": "fault_enumeration", "stages": ["native", "fvbuild"]},
